@@ -82,6 +82,8 @@ type SegR struct {
 	Parts  []PartR    `json:"parts,omitempty"`
 	Events []TSEventR `json:"events,omitempty"`
 	Muts   []ByteMut  `json:"muts,omitempty"`
+	// Range: the segment is listed with an EXT-X-BYTERANGE (see rangeOf); "" = no byte range
+	Range string `json:"range,omitempty"`
 }
 
 // StreamR is one media playlist with its init and segments.
@@ -90,7 +92,12 @@ type StreamR struct {
 	DateTime  bool      `json:"datetime,omitempty"`
 	Tracks    []TrackR  `json:"tracks"`
 	InitMuts  []ByteMut `json:"init_muts,omitempty"`
-	Segments  []SegR    `json:"segments"`
+	// Packed: all segments are sub-ranges of ONE resource (s<i>_all.<ext>), listed in order; a segment whose Range
+	// is "full" is listed length-only (its offset is implied by the previous segment), any other with <n>@<o>
+	Packed bool `json:"packed,omitempty"`
+	// MapRange: EXT-X-MAP carries a BYTERANGE attribute (see rangeOf); "" = none
+	MapRange string `json:"map_range,omitempty"`
+	Segments []SegR `json:"segments"`
 	// RawPlaylist (oracle-only stream): served verbatim as this stream's media playlist
 	RawPlaylist []byte `json:"raw_playlist,omitempty"`
 }
@@ -123,6 +130,8 @@ type Recipe struct {
 	CloseAfterDataMS int `json:"close_after_data_ms,omitempty"`
 	// RawPrimary (oracle-only stream): served verbatim as the primary playlist
 	RawPrimary []byte `json:"raw_primary,omitempty"`
+	// Tags: variations of a valid stream that are not deviations (e.g. byte ranges that cover the whole resource)
+	Tags []string `json:"tags,omitempty"`
 	// Faults: how many deviations from a valid stream the generator put in (tie compares 0/1-fault cases)
 	Faults []string `json:"faults,omitempty"`
 }
@@ -615,24 +624,99 @@ func buildTS(tracks []TrackR, events []TSEventR) ([]byte, error) {
 
 var testDate = "2010-01-01T01:01:01Z"
 
-func mediaPlaylist(s *StreamR, idx int) []byte {
+// byteRangeKinds: how a resource of n bytes is listed.
+//
+//	full@0  <n>@0        the whole resource, with offset
+//	full    <n>          the whole resource, length only (the @o is optional: RFC 8216 4.3.2.2 / 4.3.2.5)
+//	half@0  <n/2>@0      the first half, with offset
+//	half    <n/2>        the first half, length only
+//	rest@8  <n-8>@8      everything after the first 8 bytes
+var byteRangeKinds = []string{"full@0", "full", "half@0", "half", "rest@8"}
+
+// rangeOf: length and optional offset of a byte range of kind spec over a resource of total bytes
+// (ok = false: no range is written, e.g. for an empty resource).
+func rangeOf(spec string, total int) (length int, off *int, ok bool) {
+	if spec == "" || total == 0 {
+		return 0, nil, false
+	}
+	zero, eight := 0, 8
+	switch spec {
+	case "full@0":
+		return total, &zero, true
+	case "full":
+		return total, nil, true
+	case "half@0":
+		return (total + 1) / 2, &zero, true
+	case "half":
+		return (total + 1) / 2, nil, true
+	case "rest@8":
+		if total <= 8 {
+			return total, &zero, true
+		}
+		return total - 8, &eight, true
+	}
+	panic("unknown byte range kind " + spec)
+}
+
+func rangeText(spec string, total int) string {
+	n, off, ok := rangeOf(spec, total)
+	if !ok {
+		return ""
+	}
+	if off == nil {
+		return fmt.Sprintf("%d", n)
+	}
+	return fmt.Sprintf("%d@%d", n, *off)
+}
+
+// effectiveBytes: what the UNCHANGED client obtains for a resource listed with this range: it asks for
+// bytes=<o>-<o+n-1>, with o = 0 when the range has no offset (for a length-only range that is not the
+// first of its resource this is the recorded C10 finding range-implicit; C13 only wants no panic, no
+// wedge, an error or normal play); the stub server answers 206 with exactly those bytes.
+func effectiveBytes(spec string, body []byte) []byte {
+	n, off, ok := rangeOf(spec, len(body))
+	if !ok {
+		return body
+	}
+	st := 0
+	if off != nil {
+		st = *off
+	}
+	end := st + n
+	if end > len(body) {
+		end = len(body)
+	}
+	return body[st:end]
+}
+
+// segRef: how one segment is listed
+type segRef struct {
+	URI   string
+	Range string // text of EXT-X-BYTERANGE, "" = none
+}
+
+func mediaPlaylist(s *StreamR, idx int, initLen int, refs []segRef) []byte {
 	if s.RawPlaylist != nil {
 		return s.RawPlaylist
 	}
 	var sb strings.Builder
 	sb.WriteString("#EXTM3U\n#EXT-X-VERSION:7\n#EXT-X-TARGETDURATION:2\n#EXT-X-MEDIA-SEQUENCE:0\n#EXT-X-PLAYLIST-TYPE:VOD\n")
 	if s.Container == "fmp4" {
-		fmt.Fprintf(&sb, "#EXT-X-MAP:URI=\"s%d_init.mp4\"\n", idx)
+		fmt.Fprintf(&sb, "#EXT-X-MAP:URI=\"s%d_init.mp4\"", idx)
+		if t := rangeText(s.MapRange, initLen); t != "" {
+			fmt.Fprintf(&sb, ",BYTERANGE=\"%s\"", t)
+		}
+		sb.WriteString("\n")
 	}
-	for i := range s.Segments {
+	for i, ref := range refs {
 		if s.DateTime && i == 0 {
 			fmt.Fprintf(&sb, "#EXT-X-PROGRAM-DATE-TIME:%s\n", testDate)
 		}
-		ext := "mp4"
-		if s.Container != "fmp4" {
-			ext = "ts"
+		sb.WriteString("#EXTINF:1.00000,\n")
+		if ref.Range != "" {
+			fmt.Fprintf(&sb, "#EXT-X-BYTERANGE:%s\n", ref.Range)
 		}
-		fmt.Fprintf(&sb, "#EXTINF:1.00000,\ns%d_seg%d.%s\n", idx, i, ext)
+		sb.WriteString(ref.URI + "\n")
 	}
 	sb.WriteString("#EXT-X-ENDLIST\n")
 	return []byte(sb.String())
@@ -651,12 +735,16 @@ func buildRecipe(r *Recipe) (*built, error) {
 	put := func(path string, body []byte) {
 		b.Job.Resources[path] = &resource{Status: 200, Bodies: [][]byte{body}}
 	}
+	var primaryMedia []byte
 	for i := range r.Streams {
 		s := &r.Streams[i]
 		var initB []byte
-		var segs [][]byte
+		var bodies [][]byte
+		initLen := 0
 		seq := uint32(1)
+		ext := "ts"
 		if s.Container == "fmp4" {
+			ext = "mp4"
 			var err error
 			initB, err = buildInit(s.Tracks)
 			if err != nil {
@@ -664,29 +752,63 @@ func buildRecipe(r *Recipe) (*built, error) {
 			}
 			initB = applyMuts(initB, s.InitMuts)
 			put(fmt.Sprintf("/s%d_init.mp4", i), initB)
-			for k, sg := range s.Segments {
-				sb, err := buildParts(s.Tracks, sg.Parts, &seq)
-				if err != nil {
-					return nil, fmt.Errorf("stream %d seg %d: %w", i, k, err)
+			initLen = len(initB)
+			initB = effectiveBytes(s.MapRange, initB)
+		}
+		for k, sg := range s.Segments {
+			var sb []byte
+			var err error
+			if s.Container == "fmp4" {
+				sb, err = buildParts(s.Tracks, sg.Parts, &seq)
+			} else {
+				sb, err = buildTS(s.Tracks, sg.Events)
+			}
+			if err != nil {
+				return nil, fmt.Errorf("stream %d seg %d: %w", i, k, err)
+			}
+			bodies = append(bodies, applyMuts(sb, sg.Muts))
+		}
+		var segs [][]byte // what the unchanged client obtains for each segment
+		var refs []segRef
+		if s.Packed {
+			var all []byte
+			for _, b := range bodies {
+				all = append(all, b...)
+			}
+			uri := fmt.Sprintf("s%d_all.%s", i, ext)
+			put("/"+uri, all)
+			off := 0
+			for k, b := range bodies {
+				switch {
+				case len(b) == 0:
+					// an empty sub-range cannot be written: the whole resource
+					refs = append(refs, segRef{URI: uri})
+					segs = append(segs, all)
+				case s.Segments[k].Range == "full":
+					// length only: the unchanged client asks for the first len(b) bytes of the resource
+					refs = append(refs, segRef{URI: uri, Range: fmt.Sprintf("%d", len(b))})
+					segs = append(segs, all[:len(b)])
+				default:
+					refs = append(refs, segRef{URI: uri, Range: fmt.Sprintf("%d@%d", len(b), off)})
+					segs = append(segs, b)
 				}
-				sb = applyMuts(sb, sg.Muts)
-				segs = append(segs, sb)
-				put(fmt.Sprintf("/s%d_seg%d.mp4", i, k), sb)
+				off += len(b)
 			}
 		} else {
-			for k, sg := range s.Segments {
-				sb, err := buildTS(s.Tracks, sg.Events)
-				if err != nil {
-					return nil, fmt.Errorf("stream %d seg %d: %w", i, k, err)
-				}
-				sb = applyMuts(sb, sg.Muts)
-				segs = append(segs, sb)
-				put(fmt.Sprintf("/s%d_seg%d.ts", i, k), sb)
+			for k, b := range bodies {
+				uri := fmt.Sprintf("s%d_seg%d.%s", i, k, ext)
+				put("/"+uri, b)
+				refs = append(refs, segRef{URI: uri, Range: rangeText(s.Segments[k].Range, len(b))})
+				segs = append(segs, effectiveBytes(s.Segments[k].Range, b))
 			}
 		}
 		b.Inits = append(b.Inits, initB)
 		b.Segs = append(b.Segs, segs)
-		put(fmt.Sprintf("/s%d.m3u8", i), mediaPlaylist(s, i))
+		pl := mediaPlaylist(s, i, initLen, refs)
+		put(fmt.Sprintf("/s%d.m3u8", i), pl)
+		if i == 0 {
+			primaryMedia = pl
+		}
 	}
 	switch {
 	case r.RawPrimary != nil:
@@ -720,7 +842,7 @@ func buildRecipe(r *Recipe) (*built, error) {
 	default:
 		// a media playlist as primary: stream 0 under the primary URI
 		if len(r.Streams) > 0 {
-			put("/index.m3u8", mediaPlaylist(&r.Streams[0], 0))
+			put("/index.m3u8", primaryMedia)
 		}
 	}
 	return b, nil
